@@ -19,7 +19,7 @@ ASSUMPTIONS = ['power / image tolerances 4e-2 (>= 6x the worst interpolation res
                'scale factors are drawn so that n*s is not within 1e-9 of an integer unless it is exactly one']
 PLAN = {'quick': {'gen': 8}, 'thorough': {'gen': 16, 'tests': 1, 'docs': 1}}
 REQUIRED_BUCKETS = ['s<1', 's>1', 's=1', 's:integer', 'shape:odd', 'shape:even', 'shape:nonsquare', 'monolithic', 'segmented',
-                    'resample', 'resample:refused', 'scalar-attributes', 'mask-dtype', 'amp:signed', 's:decimal-near-integer-product', 'subclass:property-override', 'opd:exact-zeros', 'array-dtype', 'pair:same-output-size']
+                    'resample', 'resample:refused', 'scalar-attributes', 'mask-dtype', 'amp:signed', 's:decimal-near-integer-product', 'subclass:property-override', 'opd:exact-zeros', 'array-dtype', 'pair:same-output-size', 'amp:node-on-samples']
 REQUIRED_ANCHORS = ['probe:Plane.rescale', 'anchor:Plane.resample', 'anchor:util.rescale', 'anchor:_plane_slice']
 REQUIRED_ORACLES = ['pixelscale/s', 'shape=ceil(n*s)', 'mask:binary+segments', 'original-untouched', 'identity', 'power',
                     'image', 'extent', 'resample=rescale', 'resample:refused']
@@ -177,7 +177,11 @@ def workload(ctx, lentil):
         signed = i % 5 == 2
         if signed:
             # a real amplitude that changes sign smoothly (a TEM10-like field: 0 / pi phase stored as the sign)
-            amp = base * (x * np.cos(0.3 * i) + y * np.sin(0.3 * i)) / w
+            ang_ = 0.3 * i if i % 10 != 2 else [0.0, np.pi / 2][(i // 10) % 2]      # (every other one: the node line ON a row / column of samples)
+            amp = base * (x * np.cos(ang_) + y * np.sin(ang_)) / w
+            if i % 10 == 2:
+                amp = base * (x if (i // 10) % 2 == 0 else y) / w               # exact zeros on the node samples
+                ctx.bucket('amp:node-on-samples')
             ctx.bucket('amp:signed')
         wl = float(rng.uniform(5e-7, 1e-6))
         c = rng.normal(size=5) * 0.25
@@ -222,6 +226,17 @@ def workload(ctx, lentil):
                   'transmitted power sum|amplitude|^2 is not preserved to interpolation accuracy', dict(desc, P=[P0, P1]), scale=P0)
         ctx.close('image', b, a, TOL, 'rescale|image', 'propagated image at a fixed output sampling is not preserved to interpolation accuracy',
                   desc, scale=float(a.max()))
+        if signed and i % 10 == 2:
+            # a node line that falls exactly on samples is part of a smooth map, not a hole in the aperture: the rescaled amplitude does
+            # not change when the zeros are replaced by 1e-300
+            try:
+                with probe.quiet():
+                    q_eps = lentil.Pupil(amplitude=amp + 1e-300 * (base > 0), opd=opd, pixelscale=dx, focal_length=z, **kw).rescale(s)
+                ctx.close('power', np.asarray(q.amplitude, float), np.asarray(q_eps.amplitude, float), 1e-6, 'rescale|amplitude|node-on-samples',
+                          'the rescaled amplitude next to a node line changes when the exact zeros on the node are replaced by 1e-300 '
+                          '(the node is read as a hole in the aperture)', desc, scale=float(np.abs(np.asarray(q_eps.amplitude, float)).max()))
+            except Exception as e:
+                ctx.check(False, 'power', f'rescale|node-on-samples|raises={type(e).__name__}', str(e), desc)
         # ... as a complex field: what sat on the optical axis still sits there (a plane resampled about another point than its
         # origin sample shows up as a phase ramp across the image, which the intensity cannot see)
         ctx.close('image', bf, af, TOL, 'rescale|image-field', 'the propagated complex field is not preserved to interpolation accuracy '
